@@ -6,7 +6,8 @@ TRUSTED = ["zone tables as in C11; the local weekday and minute given to the Spe
 ASSUMPTIONS = ["start times are HH:MM strings; day sets are sets of Days"]
 RULE = ("for each zone: a base week (7 consecutive local days, one of them within a day of a DST transition when the zone has one) x "
         "all 128 day sets (quick: 40 sampled + the 8 canonical ones) x local times {start-1 min, start, start+1 min, 00:00, 00:01, "
-        "12:00, 23:59} x several start times, so that local and UTC weekday differ for part of the grid; non-trivial = distinct cases "
+        "12:00, 23:59} x several start times, so that local and UTC weekday differ for part of the grid; the same grid with one "
+        "set object consulted at two instants; non-trivial = distinct cases "
         "with a non-empty day set")
 REQUIREMENT = ("text = 'Due today' if today is selected and the start is still ahead, 'Due tomorrow' if the earliest future occurrence "
                "is the next calendar day, else 'Due next <weekday>' of the nearest selected weekday (a week ahead when only today is "
@@ -30,12 +31,24 @@ def gen(rnd, zone, tier):
     return cases
 
 
-def describe(c): return "zone %s now %d pretty_next_run(%r, days %s)" % (c["zone"], c["now"], c["start"], c["days"])
+def gen_reuse(rnd, cases, n):
+    """pairs of instants at which the same set object is consulted: the first call must leave the caller's set as it was"""
+    out = []
+    for _ in range(n):
+        a = rnd.choice(cases); b = dict(rnd.choice(cases))
+        b["days"] = a["days"]; b["first_now"] = a["now"]; b["first_start"] = a["start"]; out.append(b)
+    return out
+
+
+def describe(c):
+    first = "same set object first consulted at %d for %r; " % (c["first_now"], c["first_start"]) if "first_now" in c else ""
+    return "zone %s %snow %d pretty_next_run(%r, days %s)" % (c["zone"], first, c["now"], c["start"], c["days"])
 
 
 def run_zone(out, stream, zone, cases):
     zd, tr = world.zone_args(zone)
-    res = world.zone_job(zone, "next_run", [{"now": c["now"], "start": c["start"], "days": c["days"]} for c in cases])
+    reuse = bool(cases) and "first_now" in cases[0]
+    res = world.zone_job(zone, "next_run_reuse" if reuse else "next_run", [{k: c[k] for k in c if k != "zone"} for c in cases])
     io = [("ok " + r["text"]) if r["text"] != "raised" else "raised" for r in res]
     mo = lib.run_model([lib.req("next_run", zd, tr, c["now"], c["start"], c["days"]) for c in cases])
     ex = lib.run_model([lib.req("next_run_spec", r["facts_now"][1], r["facts_now"][2], int(c["start"][:2]) * 60 + int(c["start"][3:]), c["start"], c["days"])
@@ -47,7 +60,9 @@ def run_zone(out, stream, zone, cases):
 def run(tier, rnd, out):
     zones = ["UTC", "Asia/Jerusalem", "America/Los_Angeles", "Pacific/Kiritimati"] if tier == "quick" else world.ZONES_QUICK + ["America/Los_Angeles", "Asia/Tokyo", "Europe/London"]
     for c in lib.load_corpus("C13"): run_zone(out, "corpus", c["zone"], [c])
-    for zone in zones: run_zone(out, "weekday-set-minute-grid", zone, gen(rnd, zone, tier))
+    for zone in zones:
+        cs = gen(rnd, zone, tier); run_zone(out, "weekday-set-minute-grid", zone, cs)
+        run_zone(out, "same-set-object-consulted-twice", zone, gen_reuse(rnd, [c for c in cs if len(c["days"]) >= 2], 150 if tier == "quick" else 3000))
 
 
 def replay(rp, out):
